@@ -36,6 +36,22 @@ func voidVal() Val { return Val{T: types.NewTuple()} }
 
 func (x *Exec) doCallVals(st *State, fr *Frame, c *ssa.CallCommon, fv Val, argv []Val, pos token.Pos, k func(*State, Val)) {
 	rt := resultType(c)
+	if x.fc != nil && x.fc.AtCalls != nil {
+		name := calleeName(c)
+		for i, ac := range x.fc.AtCalls[name] {
+			env := &specEnv{w: x.w, pkg: x.fc.Pkg, vars: x.entryEnv, st: st, heap: st.heap, old: x.initHeap}
+			g, err := env.evalBool(ac.E)
+			if err != nil {
+				x.reject("contract of %s: atcall %s %q: %v", x.fc.Key, name, ac.Src, err)
+			}
+			label := ac.Label
+			if label == "" {
+				label = fmt.Sprintf("atcall%d", i)
+			}
+			x.atcallUsed[name] = true
+			x.oblige(st, "atcall", x.site(name, pos), label, ac.Tags, g, pos, ac.Src)
+		}
+	}
 	if c.IsInvoke() {
 		x.oblige(st, "safety:nil", x.site("invoke", pos), c.Method.Name(), x.safetyTags, sNot(sEq("(itag "+fv.S+")", "0")), pos, "method call on nil interface")
 		it := namedKey(c.Value.Type())
@@ -241,7 +257,7 @@ func (x *Exec) havocMods(st *State, fc *FuncContract, env *specEnv, old map[stri
 		if !ok {
 			x.reject("contract of %s: havocs unknown parameter %s", fc.Key, h)
 		}
-		x.havocDeep(st, v)
+		_ = x.havocDeep(st, v)
 	}
 }
 
@@ -363,7 +379,8 @@ func (x *Exec) havocEntry(st *State, fc *FuncContract, m *ModEntry, env *specEnv
 }
 
 // havocDeep forgets the contents of the object a pointer (possibly wrapped in an interface) points to.
-func (x *Exec) havocDeep(st *State, v Val) {
+// It returns the reference of the object that was havoc'd ("" if none).
+func (x *Exec) havocDeep(st *State, v Val) string {
 	if v.Sort == "Iface" {
 		c, ok := st.conc[v.S]
 		if !ok {
@@ -379,8 +396,23 @@ func (x *Exec) havocDeep(st *State, v Val) {
 		x.reject("havoc of non-pointer %s", v.T)
 	}
 	a := st.addrOfPtr(v)
+	if _, isIface := p.Elem().Underlying().(*types.Interface); isIface {
+		// pointer to an interface cell (json.Unmarshal(data, &target) with target any): the decoder
+		// follows a non-nil pointer stored in the interface
+		cur := st.load(a, p.Elem())
+		if c, ok := st.conc[cur.S]; ok {
+			if _, isPtr := c.T.Underlying().(*types.Pointer); isPtr {
+				return x.havocDeep(st, c)
+			}
+		}
+		x.reject("havoc through interface cell with unknown content")
+	}
 	nv := st.freshVal("hv", p.Elem())
 	st.storeAt(a, nv, p.Elem())
+	if a.Kind == "obj" || a.Kind == "mem" {
+		return a.Ref
+	}
+	return ""
 }
 
 // ---- goroutines ----
@@ -415,6 +447,9 @@ func (x *Exec) doGo(st *State, fr *Frame, in *ssa.Go) {
 			if fv := x.val(st, fr, c.Value); fv.Clo != nil {
 				for i, f := range callee.FreeVars {
 					vars[f.Name()] = fv.Clo.Binds[i]
+					if pt, ok := f.Type().Underlying().(*types.Pointer); ok && sortOf(pt.Elem()) != "" {
+						vars[f.Name()] = st.load(st.addrOfPtr(fv.Clo.Binds[i]), pt.Elem())
+					}
 				}
 			}
 			env := &specEnv{w: x.w, pkg: fc.Pkg, vars: vars, st: st, heap: st.heap}
